@@ -499,6 +499,7 @@ def c30_replay(w):
 def main(prop, tier):
     camp = Campaign(prop, tier)
     n = N_QUICK[prop] if tier == "quick" else N_THOROUGH[prop]
+    n = int(__import__("os").environ.get("VERIF_CASES", n))     # experiments only
     base = camp.seed * 1000003 + {"C04": 100, "C05": 200, "C29": 300, "C30": 400}[prop] * 1000
     if prop == "C04":
         camp.rule = ("push/pop/assert/check/get-* histories (15-45 commands, re-asserted popped formulas, all engines, "
